@@ -436,18 +436,36 @@ func (c01Imp) Many(ctx context.Context, p1 bool, p2 int8, p3 int16, p4 int32, p5
 var _ e2e.E2EServantWithContext = c01Imp{}
 
 // ---------- recording pass-through filters ----------
-func c01Register(cfg c01Cfg) {
+type c01LegacyRun struct {
+	Client bool
+	Gen    int
+}
+
+var c01LegacyRuns []c01LegacyRun // which generation of the (replaceable) legacy single filter ran
+
+func c01Register(cfg c01Cfg) { c01RegisterDelta(c01Cfg{}, cfg) }
+
+// c01RegisterDelta registers what `to` has beyond `from` (filters can only be added; the legacy single filter is
+// replaced when its generation grows). Used at start-up and between calls.
+func c01RegisterDelta(from, to c01Cfg) {
 	fe := func(side, io, kind string, i int) string { return fmt.Sprintf("EF %s (F%s K%s %d)", side, io, kind, i) }
-	c, s := cfg.C, cfg.S
-	if c.Legacy {
+	legacyRan := func(client bool, gen int) {
+		c01Mu.Lock()
+		c01LegacyRuns = append(c01LegacyRuns, c01LegacyRun{client, gen})
+		c01Mu.Unlock()
+	}
+	c, s := to.C, to.S
+	if c.Legacy && (!from.C.Legacy || c.LGen > from.C.LGen) {
+		gen := c.LGen
 		tars.RegisterClientFilter(func(ctx context.Context, msg *tars.Message, invoke tars.Invoke, timeout time.Duration) error {
+			legacyRan(true, gen)
 			c01Emit(msg.Req.IRequestId, fe("Client", "In", "Legacy", 0))
 			err := invoke(ctx, msg, timeout)
 			c01Emit(msg.Req.IRequestId, fe("Client", "Out", "Legacy", 0))
 			return err
 		})
 	}
-	for i := 0; i < c.Mws; i++ {
+	for i := from.C.Mws; i < c.Mws; i++ {
 		i := i
 		tars.UseClientFilterMiddleware(func(next tars.ClientFilter) tars.ClientFilter {
 			return func(ctx context.Context, msg *tars.Message, invoke tars.Invoke, timeout time.Duration) error {
@@ -458,29 +476,31 @@ func c01Register(cfg c01Cfg) {
 			}
 		})
 	}
-	for i := 0; i < c.Pres; i++ {
+	for i := from.C.Pres; i < c.Pres; i++ {
 		i := i
 		tars.RegisterPreClientFilter(func(ctx context.Context, msg *tars.Message, invoke tars.Invoke, timeout time.Duration) error {
 			c01Emit(msg.Req.IRequestId, fe("Client", "In", "Pre", i))
 			return nil
 		})
 	}
-	for i := 0; i < c.Posts; i++ {
+	for i := from.C.Posts; i < c.Posts; i++ {
 		i := i
 		tars.RegisterPostClientFilter(func(ctx context.Context, msg *tars.Message, invoke tars.Invoke, timeout time.Duration) error {
 			c01Emit(msg.Req.IRequestId, fe("Client", "In", "Post", i))
 			return nil
 		})
 	}
-	if s.Legacy {
+	if s.Legacy && (!from.S.Legacy || s.LGen > from.S.LGen) {
+		gen := s.LGen
 		tars.RegisterServerFilter(func(ctx context.Context, d tars.Dispatch, f interface{}, req *requestf.RequestPacket, resp *requestf.ResponsePacket, withContext bool) error {
+			legacyRan(false, gen)
 			c01Emit(req.IRequestId, fe("Server", "In", "Legacy", 0))
 			err := d(ctx, f, req, resp, withContext)
 			c01Emit(req.IRequestId, fe("Server", "Out", "Legacy", 0))
 			return err
 		})
 	}
-	for i := 0; i < s.Mws; i++ {
+	for i := from.S.Mws; i < s.Mws; i++ {
 		i := i
 		tars.UseServerFilterMiddleware(func(next tars.ServerFilter) tars.ServerFilter {
 			return func(ctx context.Context, d tars.Dispatch, f interface{}, req *requestf.RequestPacket, resp *requestf.ResponsePacket, withContext bool) error {
@@ -491,14 +511,14 @@ func c01Register(cfg c01Cfg) {
 			}
 		})
 	}
-	for i := 0; i < s.Pres; i++ {
+	for i := from.S.Pres; i < s.Pres; i++ {
 		i := i
 		tars.RegisterPreServerFilter(func(ctx context.Context, d tars.Dispatch, f interface{}, req *requestf.RequestPacket, resp *requestf.ResponsePacket, withContext bool) error {
 			c01Emit(req.IRequestId, fe("Server", "In", "Pre", i))
 			return nil
 		})
 	}
-	for i := 0; i < s.Posts; i++ {
+	for i := from.S.Posts; i < s.Posts; i++ {
 		i := i
 		tars.RegisterPostServerFilter(func(ctx context.Context, d tars.Dispatch, f interface{}, req *requestf.RequestPacket, resp *requestf.ResponsePacket, withContext bool) error {
 			c01Emit(req.IRequestId, fe("Server", "In", "Post", i))
@@ -565,46 +585,141 @@ var (
 	c01RspIDs  = map[int32]int{}
 )
 
+// re-segmentation mode of the relay (both directions): 0 forward as read; 1..6 complete frames are forwarded so that
+// each write ends k = mode-1 bytes into the next frame's length header; 7 single bytes; 8 everything in hand in one write
+var c01Seg int32
+
 func c01Pump(dst, src net.Conn, isReq bool) {
 	defer dst.Close()
 	defer src.Close()
-	var buf []byte
+	var buf []byte  // not yet accounted (incomplete frame at the end)
+	var hold []byte // not yet forwarded (re-segmentation modes)
 	tmp := make([]byte, 65536)
+	account := func(b []byte) {
+		buf = append(buf, b...)
+		for len(buf) >= 4 {
+			l := int(binary.BigEndian.Uint32(buf))
+			if l < 4 || l > 100<<20 || len(buf) < l {
+				break
+			}
+			body := buf[4:l]
+			if isReq {
+				var q requestf.RequestPacket
+				if q.ReadFrom(codec.NewReader(append([]byte(nil), body...))) == nil {
+					c01RelayMu.Lock()
+					c01ReqFr = append(c01ReqFr, c01Frame{q.IRequestId, q.CPacketType, q.SFuncName})
+					c01RelayMu.Unlock()
+				}
+			} else {
+				var p requestf.ResponsePacket
+				if p.ReadFrom(codec.NewReader(append([]byte(nil), body...))) == nil {
+					c01RelayMu.Lock()
+					c01RspIDs[p.IRequestId]++
+					c01RelayMu.Unlock()
+				}
+			}
+			buf = buf[l:]
+		}
+	}
 	for {
 		n, err := src.Read(tmp)
 		if n > 0 {
-			buf = append(buf, tmp[:n]...)
-			for len(buf) >= 4 {
-				l := int(binary.BigEndian.Uint32(buf))
-				if l < 4 || l > 100<<20 || len(buf) < l {
-					break
+			account(tmp[:n])
+			mode := atomic.LoadInt32(&c01Seg)
+			if mode == 0 && len(hold) == 0 {
+				if _, werr := dst.Write(tmp[:n]); werr != nil {
+					return
 				}
-				body := buf[4:l]
-				if isReq {
-					var q requestf.RequestPacket
-					if q.ReadFrom(codec.NewReader(append([]byte(nil), body...))) == nil {
-						c01RelayMu.Lock()
-						c01ReqFr = append(c01ReqFr, c01Frame{q.IRequestId, q.CPacketType, q.SFuncName})
-						c01RelayMu.Unlock()
+			} else {
+				hold = append(hold, tmp[:n]...)
+				// gather what the pipelining callers send within a moment, so that several frames are in hand
+				for tries := 0; tries < 40 && err == nil; tries++ {
+					src.SetReadDeadline(time.Now().Add(400 * time.Microsecond))
+					m, e := src.Read(tmp)
+					if m > 0 {
+						account(tmp[:m])
+						hold = append(hold, tmp[:m]...)
 					}
-				} else {
-					var p requestf.ResponsePacket
-					if p.ReadFrom(codec.NewReader(append([]byte(nil), body...))) == nil {
-						c01RelayMu.Lock()
-						c01RspIDs[p.IRequestId]++
-						c01RelayMu.Unlock()
+					if e != nil {
+						if ne, ok := e.(net.Error); ok && ne.Timeout() {
+							break
+						}
+						err = e
 					}
 				}
-				buf = buf[l:]
-			}
-			if _, werr := dst.Write(tmp[:n]); werr != nil {
-				return
+				src.SetReadDeadline(time.Time{})
+				var werr error
+				hold, werr = c01WriteSegmented(dst, hold, mode)
+				if werr != nil {
+					return
+				}
 			}
 		}
 		if err != nil {
+			if len(hold) > 0 {
+				dst.Write(hold)
+			}
 			return
 		}
 	}
+}
+
+// c01WriteSegmented forwards the complete frames at the front of data cut as the mode says and returns the incomplete
+// rest (its sender writes the remainder without waiting for anything, so holding it back cannot block the exchange).
+func c01WriteSegmented(dst net.Conn, data []byte, mode int32) ([]byte, error) {
+	var ends []int // end offsets of the complete frames
+	for off := 0; len(data)-off >= 4; {
+		l := int(binary.BigEndian.Uint32(data[off:]))
+		if l < 4 || l > 100<<20 {
+			_, err := dst.Write(data) // not a frame stream: pass on
+			return nil, err
+		}
+		if len(data)-off < l {
+			break
+		}
+		off += l
+		ends = append(ends, off)
+	}
+	if len(ends) == 0 {
+		return data, nil
+	}
+	total := ends[len(ends)-1]
+	out := data[:total]
+	pause := func() { time.Sleep(300 * time.Microsecond) }
+	switch {
+	case mode >= 1 && mode <= 6:
+		k := int(mode - 1)
+		start := 0
+		for i, e := range ends {
+			cut := e
+			if i < len(ends)-1 && e+k <= total {
+				cut = e + k
+			}
+			if cut > start {
+				if _, err := dst.Write(out[start:cut]); err != nil {
+					return nil, err
+				}
+				start = cut
+				if i < len(ends)-1 {
+					pause()
+				}
+			}
+		}
+	case mode == 7 && total <= 8192:
+		for i := 0; i < total; i++ {
+			if _, err := dst.Write(out[i : i+1]); err != nil {
+				return nil, err
+			}
+			if i%16 == 15 {
+				time.Sleep(20 * time.Microsecond)
+			}
+		}
+	default: // 8, or anything else: one write
+		if _, err := dst.Write(out); err != nil {
+			return nil, err
+		}
+	}
+	return append([]byte(nil), data[total:]...), nil
 }
 
 func c01StartRelay(serverAddr string) (string, error) {
@@ -1084,6 +1199,9 @@ var c01WaitLimit = 20 * time.Second
 
 var c01CaseStart int64
 
+// timeout of the proxy in ms; lowered once a call has run into it (see the case loop)
+var c01CallTimeout = 20000
+
 // c01Watchdog writes all goroutine stacks to stderr (kept by the parent) once when a case takes longer than 30 s.
 func c01Watchdog() {
 	for {
@@ -1141,7 +1259,7 @@ func c01RunBurst(proxy *e2e.E2E, g, n int) (fails []string) {
 	atomic.StoreInt32(&c01BurstOn, 1)
 	defer atomic.StoreInt32(&c01BurstOn, 0)
 	proxy.TarsSetTimeout(2000)
-	defer proxy.TarsSetTimeout(20000)
+	defer func() { proxy.TarsSetTimeout(c01CallTimeout) }()
 	var mu sync.Mutex
 	var wrong, lost, failed int
 	first := ""
@@ -1218,6 +1336,7 @@ func c01ChildMain(inPath, outPath string) {
 	}
 	cfg := cases[0].Cfg
 	c01Register(cfg)
+	registered := cfg
 	dir := "."
 	if i := strings.LastIndexByte(outPath, '/'); i >= 0 {
 		dir = outPath[:i]
@@ -1236,12 +1355,22 @@ func c01ChildMain(inPath, outPath string) {
 	out := c01ChildOut{Failures: []Failure{}, Stats: map[string]int{}}
 	expectSeen := map[string]int{}
 	burstCalls := 0
+	slowSeen := false
 	addFail := func(ci int, sig, desc string) {
 		out.Failures = append(out.Failures, Failure{Sig: sig, Desc: desc, Replay: map[string]interface{}{"case_index": ci}})
 	}
 	for ci := range cases {
 		cs := &cases[ci]
 		atomic.StoreInt64(&c01CaseStart, time.Now().UnixNano())
+		if cs.Cfg != registered { // filters registered between calls: the very next call must run through them
+			c01RegisterDelta(registered, cs.Cfg)
+			registered = cs.Cfg
+		}
+		cfg = cs.Cfg
+		atomic.StoreInt32(&c01Seg, int32(cs.Seg))
+		c01Mu.Lock()
+		legacyStart := len(c01LegacyRuns)
+		c01Mu.Unlock()
 		if cs.Burst != nil {
 			t0 := time.Now()
 			for _, f := range c01RunBurst(proxy, cs.Burst.G, cs.Burst.N) {
@@ -1354,6 +1483,12 @@ func c01ChildMain(inPath, outPath string) {
 		}
 		for i := range cs.Calls {
 			k := &cs.Calls[i]
+			if !slowSeen && outs[i].err != nil && strings.Contains(outs[i].err.Error(), "request timeout") {
+				// a call ran into the 20 s timeout: something is broken; later calls need not wait that long to say so
+				slowSeen = true
+				c01CallTimeout = 3000
+				proxy.TarsSetTimeout(c01CallTimeout)
+			}
 			c01Judge(cfg, k, preps[i], outs[i])
 			for _, f := range k.Fails {
 				parts := strings.SplitN(f, "\x00", 2)
@@ -1423,6 +1558,20 @@ func c01ChildMain(inPath, outPath string) {
 				cs.Calls[i].Events = "None"
 			}
 		}
+		atomic.StoreInt32(&c01Seg, 0)
+		c01Mu.Lock()
+		for _, lr := range c01LegacyRuns[legacyStart:] {
+			want := cfg.S.LGen
+			side := "server"
+			if lr.Client {
+				want, side = cfg.C.LGen, "client"
+			}
+			if lr.Gen != want {
+				addFail(ci, "e2e/filter-order/replaced-legacy-filter", fmt.Sprintf("the %s legacy filter registered as number %d ran although number %d replaced it", side, lr.Gen, want))
+				break
+			}
+		}
+		c01Mu.Unlock()
 		out.Cases = append(out.Cases, *cs)
 		if ci%20 == 19 || len(cs.Calls) > 1 || time.Now().UnixNano()-atomic.LoadInt64(&c01CaseStart) > int64(time.Second) {
 			pb, _ := json.Marshal(out)
